@@ -609,6 +609,13 @@ def _one(build, f, t):
         marks = _marks_check(etree)
     except Exception as ex:          # the walk itself must not hide a result
         marks = [["walk-error", f"{type(ex).__name__}: {ex}"]]
+    # a diff result is a tree: diffed again (against the FIRST document: nothing to do) it costs nothing, and the first
+    # result keeps its cost
+    try:
+        d2 = etree.diff(build(f))
+        chain = [int(d2.edited_cost()), int(etree.edited_cost())]
+    except Exception as ex:
+        chain = ["EXC:" + type(ex).__name__, None]
     A3 = build(f)
     B3 = build(t)
     flat = 0
@@ -623,7 +630,7 @@ def _one(build, f, t):
                                           (Match, "match")) if isinstance(ed, c)), "other:" + type(ed).__name__))
     eq = bool(A._children == B._children) if type(A).__name__ == "CSVNode" else bool(A == B)   # CSVNode.__eq__ also equates "empty" tables
     obs = {"script": script, "oracle": oracle, "root": root, "edited_cost": int(edited), "flat_sum": flat,
-           "flat_n": nflat, "flat_kinds": sorted(kinds), "marks": marks, "eq": eq, "sizes": [int(A.total_size), int(B.total_size)]}
+           "flat_n": nflat, "flat_kinds": sorted(kinds), "marks": marks, "chain": chain, "eq": eq, "sizes": [int(A.total_size), int(B.total_size)]}
     if type(A).__name__ == "CSVNode":
         # the classes and list flags the loader gave the table and its first row (informative only; C10 is judged on the script)
         def flags(n):
@@ -918,6 +925,10 @@ def _pairing(node, f, t, opts, path=()):
     return out
 
 
+def via_plain(case):
+    return case.get("via") is None
+
+
 def _leaf_kinds(node):
     """Kinds of the non-compound edits with a positive cost, as get_all_edits() is documented to list them."""
     kind, fi, ti, cost, subs = node
@@ -952,6 +963,12 @@ def monitor(case, obs):
             raw.append(("C01", "flat-list-differs", f"edit tree has leaf edits {dict(a - b)} that the flat edit list lacks; the flat list has {dict(b - a)} extra"))
     for kind, what in obs.get("marks", []) or []:
         raw.append(("C01", "marks:" + kind, "annotated tree (diff()): " + what))
+    ch = obs.get("chain")
+    if ch and isinstance(root, int) and via_plain(case):
+        if ch[0] != 0:
+            raw.append(("C03", "chained-diff-cost", f"the result of the first diff, diffed against the first document again, reports cost {ch[0]} (expected 0)"))
+        elif ch[1] != obs["edited_cost"]:
+            raw.append(("C03", "chained-diff-changes-first-result", f"after the second diff the first result reports {ch[1]} instead of {obs['edited_cost']}"))
     # ---- C02
     de = data_eq(cf, ct)
     if de is not None and isinstance(root, int):
